@@ -159,10 +159,15 @@ def case_video(rng, choice=None):
     # … and the service itself: the job re-pointed to another service installed on the same server
     if not vs:
         bpp2 = bpp * 3
-        svc2 = VideoStreaming("video2", server=svc.server, base_ram_consumption=SourceValue(0 * u.GB),
+        occ0 = phys(svc.server.occupied_ram_per_instance)
+        svc2 = VideoStreaming("video2", server=svc.server, base_ram_consumption=SourceValue(3 * u.GB),
                               bits_per_pixel=SourceValue(bpp2 * u.dimensionless),
                               static_delivery_cpu_cost=SourceValue(cost * u.cpu_core / (u.GB / u.s)),
                               ram_buffer_per_user=SourceValue(buf * u.MB))
+        # "with the service's base consumption added to the server's": also for a service installed on a computed server
+        if not close_q(phys(svc.server.occupied_ram_per_instance), (occ0[0] + 3 * 8 * 10 ** 9, occ0[1])):
+            vs.append(("service-installed-on-a-computed-server-not-accounted", "a service with 3 GB of base RAM installed on the server of a computed "
+                       "system: the server's occupied RAM per instance is unchanged"))
         jobA.service = svc2
         w3, h3 = map(int, re.search(r"\((\d+)\s*x\s*(\d+)\)", jobA.resolution.value).groups())
         br3 = Fraction(w3 * h3) * frac(bpp2) * frac(fps) * 2
